@@ -87,13 +87,13 @@ func init() {
 			fr.x.allocLimit = int64(fr.x.asInt(fr, a[0], "AllocLimit"))
 			return nil
 		},
-		zz + "AllocEnd": func(fr *frame, a []Value) Value { fr.x.allocLimit = 0; return nil },
-		zz + "SameNumber": inSameNumber,
-		zz + "PoolPuts": func(fr *frame, a []Value) Value { return fr.x.f.Const(64, uint64(fr.x.poolPuts)) },
-		zz + "PoolGets": func(fr *frame, a []Value) Value { return fr.x.f.Const(64, uint64(fr.x.poolGets)) },
-		zz + "LocksHeld": func(fr *frame, a []Value) Value { return fr.x.f.Const(64, uint64(fr.x.cur.held)) },
+		zz + "AllocEnd":     func(fr *frame, a []Value) Value { fr.x.allocLimit = 0; return nil },
+		zz + "SameNumber":   inSameNumber,
+		zz + "PoolPuts":     func(fr *frame, a []Value) Value { return fr.x.f.Const(64, uint64(fr.x.poolPuts)) },
+		zz + "PoolGets":     func(fr *frame, a []Value) Value { return fr.x.f.Const(64, uint64(fr.x.poolGets)) },
+		zz + "LocksHeld":    func(fr *frame, a []Value) Value { return fr.x.f.Const(64, uint64(fr.x.cur.held)) },
 		zz + "TrackRelease": func(fr *frame, a []Value) Value { fr.x.trackRelease = a[0].(*Term).IsTrue(); return nil },
-		zz + "Symbolic": func(fr *frame, a []Value) Value { return fr.x.f.Bool(true) },
+		zz + "Symbolic":     func(fr *frame, a []Value) Value { return fr.x.f.Bool(true) },
 		zz + "SameBacking": func(fr *frame, a []Value) Value {
 			s1, s2 := a[0].(Slice), a[1].(Slice)
 			if cap(s1.v) == 0 || cap(s2.v) == 0 {
